@@ -4,7 +4,8 @@ import k5check
 
 
 def run(tier):
-    return k5check.run("C16", tier)
+    return k5check.run("C16", tier, k3_programs=["same-key-upsert-during-displacement", "same-key-upsert-during-displacement-hp3",
+                                                 "same-key-inserters"])
 
 
 def replay(path):
